@@ -27,7 +27,9 @@ first, then the parent's …).  The statement then fixes everything that is comp
   readings exist — literal concatenation and joining with a single slash — and the implementation mixes
   them; both are accepted, nothing else: where the two sides bring k >= 1 slashes together, between 1 and
   k slashes must appear; where they bring none, address|path gets exactly one, prefix|path none
-  (``joint``/``url_candidates``).  The query is compared as decoded pairs per name;
+  (``joint``/``url_candidates``).  The path and the prefixes are taken exactly as given (percent signs,
+  "?", "#", blanks, non-ASCII: url-encoding applies to the params only).  The query is compared as
+  decoded pairs per name;
 * exactly one Authorization header iff the chain has an authenticating layer, decoding to its credentials;
 * body by type: None -> no body, bytes unchanged, str -> utf-8, anything else -> JSON text in utf-8
   (compared after decoding); Content-Type of a JSON body, when the caller gave none, must name json;
@@ -245,7 +247,9 @@ def compare_request(family, chain, verb, path, params, data, headers, obs):
         out.append(("url", "request does not go to the connection's address", url, addr + "..."))
     else:
         rest = url[len(addr):]
-        upart, _, query = url.partition("?")
+        # url-encoding applies to the params only: the path is taken as given, "?" and "#" included, so the
+        # query is what follows the LAST "?" — and only if params were given
+        upart, query = (url.rpartition("?")[0], url.rpartition("?")[2]) if (params and "?" in url) else (url, "")
         cands = url_candidates(family.address, chain, path)
         if upart not in cands:
             glued = not rest.startswith("/")
@@ -256,8 +260,6 @@ def compare_request(family, chain, verb, path, params, data, headers, obs):
         if group_pairs(got_pairs) != group_pairs(expected_pairs(params)):
             out.append(("query", "url-encoded params differ (every pair must arrive, values of one name in order)",
                         got_pairs, expected_pairs(params)))
-        if urlsplit(url).fragment:
-            out.append(("url", "unexpected fragment", url, None))
     # ---- method ------------------------------------------------------------------------------
     if obs["method"] != verb.upper():
         out.append(("method", "method differs from the entry point used", obs["method"], verb.upper()))
